@@ -1,6 +1,6 @@
 # Per-property claims; exec'd by gen_manifest.py (claim(id, technique, text, note, design_ref)).
 PENDING = "check not built yet in this framework (DESIGN.md §8 build order); no verdict is claimed until its rule set runs clean both ways"
-for _p in ["C01","C02","C03","C04","C06","C08","C11","C14","C16","C18","C19","C20"]:
+for _p in ["C01","C02","C03","C04","C08","C11","C14","C16","C18","C19","C20"]:
     NOT_APPLICABLE[_p] = PENDING
 
 claim("C10",
@@ -50,3 +50,9 @@ claim("C07",
   "Shows that every identity hash, base32/base64 address and equality in the library is computed from exactly (*KeysAndCert).Bytes() of the identity's own KeysAndCert — unsliced, nothing mixed in — through crypto/sha256.Sum256 (types.SHA256 is initialised to it and never stored to), TrimRight(base32(full digest),\"=\")+\".b32.i2p\" (60 characters) and the I2P base64; equality is byte equality of the two serialisations; and KeysAndCert.Bytes draws on every field (keys, padding, certificate). So padding and certificate bytes always take part, for every identity — a statement the example-based tests cannot make. That changing any byte changes the hash is a property of SHA-256 (not decided).",
   "Trusted: crypto/sha256, base encodings (C13), bytes.Equal/ConstantTimeCompare. Exported accessor names are anchors. Placement of bytes inside KeysAndCert.Bytes is C01/C10's clause.",
   "DESIGN.md §5 C07")
+
+claim("C06",
+  "field-sensitive interprocedural provenance slicing of the stored signature, the signed message and the signing key in every signing constructor; producer identity between signing and verifying side",
+  "For every exported constructor that takes a signing private key and returns a structure with a signature: the stored signature must originate from a cryptographic signing primitive (NewLeaseSet2's placeholder is reported as a known finding); every argument stored in the structure is also an origin of the signed message (content, not just its length); the key operand is the constructor's key parameter; and the function producing the signed bytes is the very function producing the verified bytes in C05 (RouterInfo, EncryptedLeaseSet) or a twin with the same prefix constants (LeaseSet, OfflineSignature; their field order is compared under C01). This decides, for all admissible arguments, the structural half of 'what the library signs it also verifies'; that verification then succeeds for every content rests on C01/C11 and the signature scheme.",
+  "Trusted: go-i2p/crypto signers, crypto/ed25519; go/ssa. Constructors are discovered by signature (New*/Create* with a private-key parameter and a result carrying a signature field). Known finding: NewLeaseSet2 never signs.",
+  "DESIGN.md §5 C06")
